@@ -19,7 +19,7 @@ ASSUMPTIONS = [
     "body kinds other than the JSON object are exercised at 10 representative statuses (100, 302, 400, 404, 422, 499, 500, 503, 520, 599), not at all 400",
     "an operation whose generated module cannot be imported is reported under its own clause (no call is possible, so no error can be raised)",
 ]
-BOUND = {"quick": "166 declared sets of size<=3 over 10 elements x (400 statuses + 15 further body / header kinds x 10 statuses), 12 elements incl. streaming 200s, x 2 transports (+ component-ref variant on the custom transport)", "thorough": "same (the space is complete at this bound) + sets of size 4"}
+BOUND = {"quick": "166 declared sets of size<=3 over 10 elements (sets with `default` also with `default` listed first; 5 two-tag operations called through either tag client) x (400 statuses + 15 further body / header kinds x 10 statuses), 12 elements incl. streaming 200s, x 2 transports (+ component-ref variant on the custom transport)", "thorough": "same (the space is complete at this bound) + sets of size 4"}
 CHUNK = 1
 PACK = 6
 
@@ -42,6 +42,18 @@ def op_cases(tier):
             for e in combo:
                 responses["default" if e.startswith("default") else e.split("-")[0]] = CONTENT[e]
             out.append(ops.op("get", "/e", [], None, responses))
+            # the order in which the document lists the responses carries no meaning: the same set with `default` written first
+            if k >= 2 and any(e.startswith("default") for e in combo):
+                dk = next(e for e in combo if e.startswith("default"))
+                rev = {"default": CONTENT[dk]}
+                rev.update({kk: v for kk, v in responses.items() if kk != "default"})
+                out.append(ops.op("get", "/e", [], None, rev))
+    # operations that carry two tags: whatever tag client the caller goes through, the same errors are raised
+    for combo in (("404",), ("200", "404", "default"), ("default",), ("200-sse", "500"), ("204", "422", "default+content")):
+        responses = {("default" if e.startswith("default") else e.split("-")[0]): CONTENT[e] for e in combo}
+        c = ops.op("get", "/e2", [], None, responses)
+        c["two_tags"] = True
+        out.append(c)
     return out
 
 
@@ -87,8 +99,11 @@ CALLS = [(s, 0) for s in STATUSES] + [(s, b) for s in BODY_STATUSES for b in ran
 
 
 def make_calls(case):
-    return [{"kwargs": {}, "response": {"status": s, "ctype": BODIES[b][1], "body_b64": _b(BODIES[b][2]), "headers": (BODIES[b][3] if len(BODIES[b]) > 3 else None)}}
-            for s, b in CALLS]
+    one = [{"kwargs": {}, "response": {"status": s, "ctype": BODIES[b][1], "body_b64": _b(BODIES[b][2]), "headers": (BODIES[b][3] if len(BODIES[b]) > 3 else None)}}
+           for s, b in CALLS]
+    if case.get("two_tags"):
+        return one + [dict(c, via_second_tag=True) for c in one]
+    return one
 
 
 def run_case(case):
@@ -103,11 +118,11 @@ def run_case(case):
     outcomes = set()
     for c, r in zip(cs, res):
         declared = sorted(c["responses"])
-        dlabel = ",".join(f"{k}:{v}" for k, v in c["responses"].items())
+        dlabel = ",".join(f"{k}:{v}" for k, v in c["responses"].items()) + ("|two-tags" if c.get("two_tags") else "")
 
-        def add(clause, disc, detail, status=None, body=0):
+        def add(clause, disc, detail, status=None, body=0, second=False):
             sig = f"C06|{clause}|{disc}"
-            key = f"{tr}|{dlabel}|{status}" + (f"|body={BODIES[body][0]}" if body else "") + ("|via-component-refs" if refs else "")
+            key = f"{tr}|{dlabel}|{status}" + (f"|body={BODIES[body][0]}" if body else "") + ("|via-component-refs" if refs else "") + ("|via-second-tag" if second else "")
             if (sig, key) not in seen:
                 seen.add((sig, key))
                 found.append({"sig": sig, "key": key, "msg": f"{detail} [declared {dlabel}; transport {tr}]"})
@@ -124,9 +139,10 @@ def run_case(case):
             continue
         outcomes.add("driven")
         for rec in r["records"]:
-            s, bk = CALLS[rec["id"][1]]
+            s, bk = CALLS[rec["id"][1] % len(CALLS)]
+            second = rec["id"][1] >= len(CALLS)
             ncalls += 1
-            nontriv.append(f"{tr}|{dlabel}|{s}|{bk}|{refs}")
+            nontriv.append(f"{tr}|{dlabel}|{s}|{bk}|{refs}|{second}")
             cls = f"{s // 100}xx"
             if str(s) in declared:
                 how = "declared"
@@ -136,23 +152,23 @@ def run_case(case):
                 how = "undeclared"
             ctx = f"{tr}|{cls}|{how}"  # the body kind is part of the witness key, not of the signature
             if rec.get("lookup_error"):
-                add("lookup", "method not found", rec["lookup_error"], s, bk)
+                add("lookup", "method not found", rec["lookup_error"], s, bk, second)
                 continue
             if rec.get("kind") != "raise":
-                add(ctx, "call returned a value instead of raising", f"status {s} returned {json.dumps(rec.get('value'))[:80]}", s, bk)
+                add(ctx, "call returned a value instead of raising", f"status {s} returned {json.dumps(rec.get('value'))[:80]}", s, bk, second)
                 continue
             e = rec["exc"]
             if not e.get("is_HTTPError"):
-                add(ctx, f"raised {e['type']} which is not an HTTPError", f"status {s}: {e['msg'][:120]}", s, bk)
+                add(ctx, f"raised {e['type']} which is not an HTTPError", f"status {s}: {e['msg'][:120]}", s, bk, second)
                 continue
             if e.get("status_code") != s:
-                add(ctx, "HTTPError.status_code differs from the response status", f"status {s}: status_code={e.get('status_code')}", s, bk)
+                add(ctx, "HTTPError.status_code differs from the response status", f"status {s}: status_code={e.get('status_code')}", s, bk, second)
             if e.get("response_status") != s:
-                add(ctx, "HTTPError.response missing or not the response", f"status {s}: response_status={e.get('response_status')}", s, bk)
+                add(ctx, "HTTPError.response missing or not the response", f"status {s}: response_status={e.get('response_status')}", s, bk, second)
             if 400 <= s <= 499 and not e.get("is_ClientError"):
-                add(ctx, f"4xx raises {('HTTPError' if e['type'] == 'HTTPError' else 'a class')} that is not a ClientError", f"status {s}: {e['type']} mro={e['mro'][:4]}", s, bk)
+                add(ctx, f"4xx raises {('HTTPError' if e['type'] == 'HTTPError' else 'a class')} that is not a ClientError", f"status {s}: {e['type']} mro={e['mro'][:4]}", s, bk, second)
             if 500 <= s <= 599 and not e.get("is_ServerError"):
-                add(ctx, f"5xx raises {('HTTPError' if e['type'] == 'HTTPError' else 'a class')} that is not a ServerError", f"status {s}: {e['type']} mro={e['mro'][:4]}", s, bk)
+                add(ctx, f"5xx raises {('HTTPError' if e['type'] == 'HTTPError' else 'a class')} that is not a ServerError", f"status {s}: {e['type']} mro={e['mro'][:4]}", s, bk, second)
     return {"findings": found, "evals": ncalls, "nontrivial": nontriv, "nontrivial_multi": True,
             "outcome": "+".join(sorted(outcomes)) + (":finding" if found else ""),
             "sample": {"declared": [sorted(c["responses"]) for c in cs[:3]], "transport": tr, "statuses": len(STATUSES)}}
